@@ -87,7 +87,8 @@ QHessIsDirectional(p, x, v) ==
   \A i \in Vox(p.dims) : QGrad(p, xv, i) - QGrad(p, x, i) = QHessTimes(p, v, i)
 \* "a single Hessian row equals the Hessian applied to the corresponding unit image"
 QRowIsUnit(p) == \A i \in Vox(p.dims) : \A j \in Vox(p.dims) : QHess(p, i, j) = QHessTimes(p, Unit(p.dims, i), j)
-\* row entry j of row i is the derivative of g_i with respect to x_j
+\* row entry j of row i is the derivative of g_i with respect to x_j (in particular the gradient at i does
+\* not change when a voxel outside the stencil of i changes)
 QRowIsJacobian(p, x) == \A i \in Vox(p.dims) : \A j \in Vox(p.dims) : QGrad(p, Bump(x, j, 1), i) - QGrad(p, x, i) = QHess(p, i, j)
 \* "The Hessian is symmetric"
 QSymmetric(p) == \A i \in Vox(p.dims) : \A j \in Vox(p.dims) : QHess(p, i, j) = QHess(p, j, i)
@@ -100,10 +101,8 @@ QLinearBeta(p, x, b) ==
   /\ \A i \in Vox(p.dims) : QGrad(pb, x, i) = b * QGrad(p, x, i) /\ QHessRow(pb, i) = { <<e[1], b * e[2]>> : e \in QHessRow(p, i) }
 \* "the gradient vanishes for uniform images"
 QUniformZero(p, c) == LET u == [i \in Vox(p.dims) |-> c] IN \A i \in Vox(p.dims) : QGrad(p, u, i) = 0
-\* "voxels ... interact only with neighbours inside the image": rows are supported on the stencil, and
-\* the gradient at i does not change when a voxel outside the stencil of i changes
-QLocal(p, x) == \A i \in Vox(p.dims) : \A j \in Vox(p.dims) :
-                  ~Near(p.dims, p.wr, i, j) => QHess(p, i, j) = 0 /\ QGrad(p, Bump(x, j, 1), i) = QGrad(p, x, i)
+\* "voxels ... interact only with neighbours inside the image": rows are supported on the (clipped) stencil
+QLocalRows(p) == \A i \in Vox(p.dims) : \A e \in QHessRow(p, i) : e[1] \in Vox(p.dims) /\ Near(p.dims, p.wr, i, e[1])
 
 (***************************************************************************)
 (* Part 2: relative difference prior, epsilon > 0, non-negative images.    *)
